@@ -354,8 +354,30 @@ def _identity(I, a, b):
     return a is b
 
 
+def dict_find(I, d, key):
+    """The key object of native dictionary d that equals `key` on this path (forking on symbolic
+    comparisons), or None.  Needed as soon as a key or the probe is symbolic."""
+    from .sym import SymKey, unkey
+    key = unkey(key)
+    for kk in list(d.keys()):
+        r = equals(I, unkey(kk), key)
+        if r is True or (r is not False and I.cond(r)):
+            return kk
+    return None
+
+
+def dict_has_symkeys(d):
+    from .sym import SymKey
+    return any(isinstance(k, SymKey) for k in d)
+
+
 def equals(I, a, b):
     """Python == ; returns bool | SBool."""
+    from .sym import SymKey as _SK
+    if isinstance(a, _SK):
+        a = a.v
+    if isinstance(b, _SK):
+        b = b.v
     if isinstance(a, SOpt) or isinstance(b, SOpt):
         if isinstance(a, SOpt) and b is None:
             return lower_bool(a.isnone)
@@ -560,8 +582,9 @@ def contains(I, container, item):
         return acc if isinstance(acc, bool) else lower_bool(acc)
     if isinstance(container, dict):
         item = I.resolve_opt(item)
-        if is_symbolic(item) and not isinstance(item, Obj):
-            return contains(I, list(container.keys()), item)
+        if (is_symbolic(item) and not isinstance(item, Obj)) or dict_has_symkeys(container):
+            from .sym import unkey
+            return contains(I, [unkey(k) for k in container.keys()], item)
         try:
             return item in container
         except TypeError:
@@ -762,7 +785,7 @@ def index(I, v, idx):
     if isinstance(v, MB):
         v = v.v
     if isinstance(v, dict):
-        if is_symbolic(idx) and not isinstance(idx, Obj):
+        if (is_symbolic(idx) and not isinstance(idx, Obj)) or dict_has_symkeys(v):
             return _dict_sym_lookup(I, v, idx)
         try:
             return v[idx]
@@ -854,10 +877,9 @@ def index(I, v, idx):
 
 
 def _dict_sym_lookup(I, d, key):
-    for k in d:
-        r = equals(I, k, key)
-        if I.cond(r):
-            return d[k]
+    kk = dict_find(I, d, key)
+    if kk is not None:
+        return d[kk]
     I.raise_py(KeyError, "symbolic key")
 
 
@@ -893,6 +915,14 @@ def setitem(I, obj, idx, value):
         obj.version = getattr(obj, 'version', 0) + 1
         return
     if isinstance(obj, dict):
+        idx = I.resolve_opt(idx)
+        if (is_symbolic(idx) and not isinstance(idx, (Obj, Opaque, SEnum))) or dict_has_symkeys(obj):
+            from .sym import SymKey
+            kk = dict_find(I, obj, idx)
+            if kk is None:
+                kk = SymKey(idx) if (is_symbolic(idx) and not isinstance(idx, (Obj, Opaque))) else I.hashable(idx)
+            obj[kk] = value
+            return
         obj[I.hashable(idx)] = value
         return
     if isinstance(obj, list):
